@@ -1,11 +1,13 @@
 #!/bin/bash
-# seeded_matrix.sh: apply each seeded change to /repo, run the listed checks (quick), undo; writes seeded/MATRIX.txt
+# seeded_matrix.sh [glob]: apply each seeded change to /repo, run the listed checks (quick), undo; appends to seeded/MATRIX.txt
 cd /verif
-out=seeded/MATRIX.txt; : > $out
-for d in seeded/*/; do
+pat=${1:-*}
+out=seeded/MATRIX.txt
+for d in seeded/$pat/; do
   id=$(basename $d)
   [ -f $d/patch.diff ] || continue
   props=$(python3 -c "import json;print(' '.join(json.load(open('$d/meta.json'))['run_checks']))")
+  sed -i "/^$id /d" $out 2>/dev/null
   if ! git -C /repo apply --check $PWD/$d/patch.diff 2>/dev/null; then echo "$id PATCH-DOES-NOT-APPLY" | tee -a $out; continue; fi
   git -C /repo apply $PWD/$d/patch.diff
   for p in $props; do
@@ -17,4 +19,5 @@ for d in seeded/*/; do
   done
   git -C /repo checkout -- .
 done
+sort -o $out $out
 git -C /repo status --short | head -3
